@@ -198,6 +198,35 @@ fn custom_facts(file: &syn::File, name: &str) -> Value {
 
 fn member_facts(code: &str, struct_name: &str, member: &str) -> Result<Value, String> {
   let file = syn::parse_file(code).map_err(|e| format!("emitted types file does not parse: {e}"))?;
+  member_facts_in(&file, struct_name, member)
+}
+
+fn find_struct<'a>(file: &'a syn::File, name: &str) -> Option<&'a syn::ItemStruct> {
+  file.items.iter().find_map(|it| match it {
+    Item::Struct(s) if s.ident == name => Some(s),
+    _ => None,
+  })
+}
+
+/// the struct a site path ends at: `at[0]` names a struct, every further segment is a field of the
+/// current struct whose (innermost) type names the next one
+fn follow_site<'a>(file: &'a syn::File, at: &[String]) -> Result<&'a syn::ItemStruct, String> {
+  let first = at.first().ok_or("empty site path")?;
+  let mut cur = find_struct(file, first).ok_or_else(|| format!("struct {first} not emitted"))?;
+  for seg in &at[1..] {
+    let f = cur
+      .fields
+      .iter()
+      .find(|f| f.ident.as_ref().is_some_and(|i| i == seg))
+      .ok_or_else(|| format!("field {seg} not emitted in {}", cur.ident))?;
+    let ty = facts::norm(&f.ty);
+    let next = base_of(&ty).to_string();
+    cur = find_struct(file, &next).ok_or_else(|| format!("type {next} of {}.{seg} is not an emitted struct", cur.ident))?;
+  }
+  Ok(cur)
+}
+
+fn member_facts_in(file: &syn::File, struct_name: &str, member: &str) -> Result<Value, String> {
   let st = file
     .items
     .iter()
@@ -246,7 +275,7 @@ fn member_facts(code: &str, struct_name: &str, member: &str) -> Result<Value, St
     .filter(|a| !a.path().is_ident("derive") && !a.path().is_ident("serde") && !a.path().is_ident("doc"))
     .map(|a| facts::norm(&a.meta))
     .collect();
-  let custom = custom_facts(&file, base_of(&ty));
+  let custom = custom_facts(file, base_of(&ty));
   Ok(json!({
     "ty": ty,
     "default": default_attr,
@@ -300,6 +329,50 @@ pub fn eval(op: &str, input: &mut Value) -> OpResult {
         Ok(v) => v,
         Err(e) => return Ok(json!({"err": e})),
       };
+      if input["want"].as_array().is_some_and(|a| a.iter().any(|x| x == "code")) {
+        out["code"] = Value::String(types.clone());
+      }
+      Ok(out)
+    }
+    // several sites of one generated document (C17: usage / target / site dimensions): for every site path
+    // the struct it resolves to in THIS run, with the facts of the requested members
+    "dflt.doc" => {
+      let (files, _stats) = match k_gen::generate(input) {
+        Ok(x) => x,
+        Err(e) => return Ok(json!({"err": e})),
+      };
+      let types = files.get("types").ok_or("no types file")?;
+      let file = match syn::parse_file(types) {
+        Ok(f) => f,
+        Err(e) => return Ok(json!({"err": format!("emitted types file does not parse: {e}")})),
+      };
+      let mut sites = vec![];
+      for s in input["sites"].as_array().into_iter().flatten() {
+        let at: Vec<String> = s["at"].as_array().into_iter().flatten().filter_map(|x| x.as_str().map(str::to_string)).collect();
+        match follow_site(&file, &at) {
+          Err(e) => sites.push(json!({"err": e})),
+          Ok(st) => {
+            let sname = st.ident.to_string();
+            let mut members = serde_json::Map::new();
+            for m in s["members"].as_array().into_iter().flatten() {
+              let Some(m) = m.as_str() else { continue };
+              members.insert(m.to_string(), match member_facts_in(&file, &sname, m) {
+                Ok(v) => v,
+                Err(e) => json!({"err": e}),
+              });
+            }
+            let ds = derives(&st.attrs);
+            sites.push(json!({
+              "struct": sname,
+              "struct_serde": serde_idents(&st.attrs),
+              "derive_serialize": ds.iter().any(|d| d.ends_with("Serialize")),
+              "derive_deserialize": ds.iter().any(|d| d.ends_with("Deserialize")),
+              "members": members,
+            }));
+          }
+        }
+      }
+      let mut out = json!({"sites": sites});
       if input["want"].as_array().is_some_and(|a| a.iter().any(|x| x == "code")) {
         out["code"] = Value::String(types.clone());
       }
